@@ -60,7 +60,7 @@ structure Ctx where
   aux1 : Nat                -- announcer: protocol id; follower: wallet public key hash; done: attempt number
   aux2 : Nat                -- follower: coordination block; done: attempt timeout block
   leaderID : UInt8          -- follower: first seat of the leader
-  allowed : List Nat        -- follower: allowed action types
+  allowed : List Nat        -- follower: allowed action types; done: member indexes of the signing attempt
   doneSigners : List UInt8  -- done: senders already recorded
 
 /-- One received message: claimed index, authenticated network key, and the bound fields. -/
@@ -108,7 +108,8 @@ def admitMsg (addr : Nat → Nat) (s : Step) (c : Ctx) (m : Msg) : Outcome :=
     else if !c.allowed.contains m.action then .faultMistake
     else .stored
   | .done =>
-    ofBool (!c.doneSigners.contains m.idx && isValidMembership c.ops m.idx (addr m.netKey)
+    ofBool (!c.doneSigners.contains m.idx && c.allowed.contains m.idx.toNat
+      && isValidMembership c.ops m.idx (addr m.netKey)
       && m.session == c.session && m.aux1 == c.aux1 && decide (m.aux2 ≤ c.aux2) && m.hasSig)
 
 /-- "the step acted on the message" : anything but ignoring it. (A leader-impersonation fault is an
@@ -138,7 +139,7 @@ def bindings (s : Step) (c : Ctx) (m : Msg) (o : Outcome) : Bool :=
   | .announcer => m.aux1 == c.aux1 && m.session == c.session
   | .follower => c.aux1 == m.aux1 && c.aux2 == m.aux2 &&
       (o != .stored || (m.idx == c.leaderID && c.allowed.contains m.action))
-  | .done => !c.doneSigners.contains m.idx && m.session == c.session && m.aux1 == c.aux1
+  | .done => !c.doneSigners.contains m.idx && c.allowed.contains m.idx.toNat && m.session == c.session && m.aux1 == c.aux1
       && decide (m.aux2 ≤ c.aux2) && m.hasSig
 
 /-- Monitor: the property on one observed case — whatever the implementation did with the message,
